@@ -7,13 +7,21 @@
    pattern matches a file and the status commands succeed; --force never skips. *)
 From Coq Require Import List String NArith Bool Sorting.Sorted.
 Import ListNotations.
-From TV Require Import Fp.Model Fp.ProofsBase Fp.ProofsSafe Fp.ProofsC04 Fp.ProofsC05 Fp.ProofsDetect Fp.Refute Fp.Examples Extracted.Facts Run.FpCases.
+From TV Require Import Fp.Model Fp.ProofsBase Fp.ProofsSafe Fp.ProofsC04 Fp.ProofsC05 Fp.ProofsDetect Fp.ProofsCurrentCs Fp.ProofsCurrentTs Fp.Refute Fp.Examples Fp.Current Extracted.Facts Run.FpCases.
+
+(* READING GUIDE
+   [LIVE]       about the tree as it is (variant [current] from Extracted.Facts; the repaired flags are
+                discharged by computation in Fp/Current.v, so a regression breaks the obligation; the
+                hypotheses carve out exactly the OPEN findings, each with a LIVE _refuted witness).
+   [REPAIRED]   about the variant in which every finding is repaired: the full statement.
+   [HISTORICAL] about the code before a fix: commit (premise false for [current] today).
+   [ANY]        facts about the checkers that hold in every variant (Globs, the stream, mtimes).      *)
 
 Theorem C05_shape_obligation : fp_shape_ok = true.
 Proof. vm_compute. reflexivity. Qed.
 Print Assumptions C05_shape_obligation.
 
-(* Globs: the last pattern that matches a file decides (exclude entries act in order); result sorted, no duplicates *)
+(* [ANY] Globs: the last pattern that matches a file decides (exclude entries act in order); result sorted, no duplicates *)
 Theorem C05_Globs_spec :
   forall (matchb : string -> path -> bool) (f : fsmap) (pats : list glob) (p : path),
     In p (globs matchb f pats) <-> In p (map fst f) /\ decide matchb pats p = Some true.
@@ -33,7 +41,7 @@ Theorem C05_exclude_order :
 Proof. exact globs_last_wins. Qed.
 Print Assumptions C05_exclude_order.
 
-(* Full statement (idempotence and detection in one monitor), for the repaired protocol, over
+(* [REPAIRED] Full statement (idempotence and detection in one monitor), for the repaired protocol, over
    every history, every outcome, both methods, with and without status and generates. *)
 Theorem C05_idempotent_and_detects :
   forall (matchb : string -> path -> bool) (H : string -> string) (Hx : fpr -> string) (v : variant),
@@ -45,37 +53,81 @@ Theorem C05_idempotent_and_detects :
 Proof. exact c05_holds. Qed.
 Print Assumptions C05_idempotent_and_detects.
 
-(* the code as it is *)
-Theorem C05_detects_refuted :                 (* 7.8: rename across directories *)
-  v_fp_exact current = false ->
+(* ------------------------------------------------------------------------------------------- *)
+(* [LIVE] The tree as it is: after a successful attempt the next normal run is skipped iff fingerprint,
+   generates and status are unchanged; --force never skips.  All histories, all outcomes.            *)
+
+(* [LIVE] method checksum; carve-outs: (i) no shared state file [C05/C04 key collision], (ii) nocoll5_run:
+   the fingerprint being checked does not share its digest with a DIFFERENT fingerprint of the task's most
+   recent attempt [7.8; necessary: C05_detects_refuted, C05_stream_not_injective] *)
+Theorem C05_current_checksum :
+  forall (matchb : string -> path -> bool) (H : string -> string) (Hx : fpr -> string)
+         (p : project) (s : state) (h : list event),
+    wf_csc_proj p -> cks s = [] ->
+    nocoll5_run matchb H Hx current p (fs s) [] (observe matchb H Hx current p s h) = true ->
+    mon_C05 matchb p (snap_of s) (observe matchb H Hx current p s h) = true.
+Proof. exact c05_cur_checksum. Qed.
+Print Assumptions C05_current_checksum.
+
+(* [LIVE] method timestamp; carve-outs: (i) no shared marker, no generates [7.4 residual / 7.9 territory];
+   (iii) K + times_ok + ev_ok: the sources present at the start are older than the first event, logical time
+   increases, file operations stamp the current time, and no file matched by a sources pattern is removed,
+   renamed or given an explicit mtime [timestamp set-blindness; necessary: C05_timestamp_removal_refuted] *)
+Theorem C05_current_timestamp :
+  forall (matchb : string -> path -> bool) (H : string -> string) (Hx : fpr -> string)
+         (p : project) (s : state) (h : list event) (T : N),
+    wf_ts_proj p -> tss s = [] -> K matchb p T (fs s) ->
+    times_ok T h = true -> forallb (ev_ok matchb p) h = true ->
+    mon_C05 matchb p (snap_of s) (observe matchb H Hx current p s h) = true.
+Proof. exact c05_cur_timestamp. Qed.
+Print Assumptions C05_current_timestamp.
+
+(* [LIVE] non-vacuity: the 8-step history h_cur (failed attempt, success, skip, edit, killed forced attempt,
+   success, dry, skip) meets the hypotheses of both *)
+Example C05_current_example :
+  (wf_csc_proj [w_task Checksum] /\ cks w_init = [] /\
+   nocoll_run gmatch idH hx1 current [w_task Checksum] (fs w_init) []
+              (observe gmatch idH hx1 current [w_task Checksum] w_init h_cur) = true /\
+   nocoll5_run gmatch idH hx1 current [w_task Checksum] (fs w_init) []
+              (observe gmatch idH hx1 current [w_task Checksum] w_init h_cur) = true /\
+   map o_res (observe gmatch idH hx1 current [w_task Checksum] w_init h_cur)
+   = [RFailed; ROk; RSkipped; RFile; RKilled; ROk; RSkipped; RSkipped]) /\
+  (wf_ts_proj [w_task Timestamp] /\ tss w_init = [] /\ K gmatch [w_task Timestamp] 10 (fs w_init) /\
+   times_ok 10 h_cur = true /\ forallb (ev_ok gmatch [w_task Timestamp]) h_cur = true /\
+   map o_res (observe gmatch idH hx1 current [w_task Timestamp] w_init h_cur)
+   = [RFailed; ROk; RSkipped; RFile; RKilled; ROk; RSkipped; RSkipped]).
+Proof. exact (conj cur_checksum_example cur_timestamp_example). Qed.
+
+(* ------------------------------------------------------------------------------------------- *)
+(* the findings: [LIVE] = open today (their premise holds for [current]); [HISTORICAL] = repaired *)
+Theorem C05_detects_refuted :                 (* [LIVE, open] 7.8: rename across directories *)
   exists p h, mon_C05 gmatch p (snap_of w_init) (observe gmatch idH hx1 current p w_init h) = false.
-Proof. exact (fun a => ex_intro _ _ (ex_intro _ _ (proj1 (rename_collision_refuted current a)))). Qed.
+Proof. exact (ex_intro _ _ (ex_intro _ _ (proj1 (rename_collision_refuted current cur_fp_not_exact)))). Qed.
 Print Assumptions C05_detects_refuted.
 
-Theorem C05_stream_not_injective :            (* 7.8: bytes moved between a content and the next name *)
+Theorem C05_stream_not_injective :            (* [LIVE, open] 7.8: bytes moved between a content and the next name *)
   exists a b : fpr, a <> b /\ stream a = stream b.
 Proof. exact stream_not_injective. Qed.
 Print Assumptions C05_stream_not_injective.
 
-Theorem C05_generates_timestamp_refuted :     (* 7.9 *)
+Theorem C05_generates_timestamp_refuted :     (* [HISTORICAL] 7.9, repaired in d94b0b8 *)
   v_ts_gen_exist current = false -> v_ts_exact current = false ->
   exists p h, mon_C05 gmatch p (snap_of w_init) (observe gmatch idH hx1 current p w_init h) = false.
 Proof. exact (fun a b => ex_intro _ _ (ex_intro _ _ (proj1 (ts_generates_refuted current a b)))). Qed.
 Print Assumptions C05_generates_timestamp_refuted.
 
-Theorem C05_timestamp_removal_refuted :       (* nothing gets a newer mtime: removal, rename, back-dating *)
-  v_ts_exact current = false ->
+Theorem C05_timestamp_removal_refuted :       (* [LIVE, open] nothing gets a newer mtime: removal, rename, back-dating *)
   exists p h, mon_C05 gmatch p (snap_of w_init) (observe gmatch idH hx1 current p w_init h) = false.
-Proof. exact (fun a => ex_intro _ _ (ex_intro _ _ (ts_removal_refuted current a))). Qed.
+Proof. exact (ex_intro _ _ (ex_intro _ _ (ts_removal_refuted current cur_ts_not_exact))). Qed.
 Print Assumptions C05_timestamp_removal_refuted.
 
-Theorem C05_force_not_recorded_refuted :      (* a successful --force run is followed by another full run *)
+Theorem C05_force_not_recorded_refuted :      (* [HISTORICAL] repaired in 641799f: a successful --force run was followed by another full run *)
   v_force_records current = false ->
   exists p h, mon_C05 gmatch p (snap_of w_init) (observe gmatch idH hx1 current p w_init h) = false.
 Proof. exact (fun a => ex_intro _ _ (ex_intro _ _ (force_not_recorded_refuted current Checksum a method_cs_ne))). Qed.
 Print Assumptions C05_force_not_recorded_refuted.
 
-(* ---- what the current checkers do detect / ignore (for every variant that still hashes the stream) ---- *)
+(* ---- [ANY] what the checkers detect / ignore (every variant that still hashes the stream / compares mtimes) ---- *)
 
 (* any edit of one matched file, any addition and any removal of a matched file changes the
    basename++content stream; with an injective hash the checksum checker then answers "not up to date" *)
@@ -135,7 +187,7 @@ Theorem C05_idempotent_partial :
 Proof. exact checksum_check_idempotent. Qed.
 Print Assumptions C05_idempotent_partial.
 
-(* non-vacuity: the repaired variant on a history with an edit, an addition, a removal and a rename *)
+(* [REPAIRED] non-vacuity: the repaired variant on a history with an edit, an addition, a removal and a rename *)
 Example C05_example :
   wf_proj p_example /\ empty_store w_init /\
   map o_res (observe gmatch idH hx1 repaired p_example w_init h_c05_example)
